@@ -263,14 +263,18 @@ class DShape:
     nested: bool = False       # the answer of req0 itself calls a provided method on the mock it receives
     assoc_const: bool = False  # the body reads an associated const that has a default and is overridden in the attribute
     weak: bool = False         # Rc/Arc: a Weak handle is alive during the call (it is not an owner)
+    consume: bool = False      # by-value receivers: the body ends by passing `self` on to a required method with the same receiver kind
 
     def key(self):
         return json.dumps([self.receiver, self.params, self.body_calls, self.route, self.partial, self.sole_owner,
-                           self.borrowed_first, self.direct_calls, self.unmet, self.nested, self.assoc_const, self.weak])
+                           self.borrowed_first, self.direct_calls, self.unmet, self.nested, self.assoc_const, self.weak,
+                           self.consume])
 
 
 def d_supported(s: DShape):
     if s.receiver not in ("rc", "arc") and not s.sole_owner:
+        return False
+    if s.consume and s.receiver not in ("owned", "rc", "arc"):
         return False
     # an unmet expectation is only observable *inside* the call when the call consumes the only handle
     if s.unmet and not (s.receiver == "owned" or (s.receiver in ("rc", "arc") and s.sole_owner)):
@@ -293,9 +297,12 @@ def render_default(s: DShape, idx: int):
     where = " where Self: Sized" if s.receiver in ("owned", "box", "rc", "arc") else ""
     for n, j in enumerate(s.body_calls):
         body.append(f"        acc = acc.wrapping_mul(31).wrapping_add(self.req{j}({20 + n}));")
+    if s.consume:
+        body.append("        acc = acc.wrapping_mul(31).wrapping_add(self.reqv(77));")
     if s.assoc_const:
         body.append("        acc = acc.wrapping_add(Self::K);")
     body.append("        acc")
+    reqv_item = f"    fn reqv({recv_sig}, x: u32) -> u32{where};\n" if s.consume else ""
     const_attr = ", const K: u32 = 15;" if s.assoc_const else ""
     const_item = "    const K: u32 = 5;\n" if s.assoc_const else ""
     trait = f"""#[unimock(api=M{const_attr})]
@@ -304,7 +311,7 @@ pub trait Tr {{
     fn req1(&self, x: u32) -> u32;
     fn req2(&self, x: u32) -> u32;
     fn never(&self) -> u32;
-    fn prov({recv_sig}{', ' if params else ''}{params}) -> u32{where} {{
+{reqv_item}    fn prov({recv_sig}{', ' if params else ''}{params}) -> u32{where} {{
 {chr(10).join(body)}
     }}
     fn prov_ref(&self, x: u32) -> u32 {{
@@ -327,6 +334,8 @@ pub trait Tr {{
     for n, j in enumerate(s.body_calls):
         acc = (acc * 31 + req(j, 20 + n)) & 0xFFFFFFFF
         req_counts[j] += 1
+    if s.consume:
+        acc = (acc * 31 + 77 * 3 + 5) & 0xFFFFFFFF
     if s.assoc_const:
         acc = (acc + 15) & 0xFFFFFFFF
     if s.borrowed_first:
@@ -346,7 +355,11 @@ pub trait Tr {{
         clauses.append(f"M::prov.next_call(matching!({', '.join('_' for _ in kinds)})).applies_default_impl()")
         for n, j in enumerate(s.body_calls):
             clauses.append(f"M::req{j}.next_call(matching!({20 + n})).answers(&|_, x| {{ ev(IDX, \"req{j}\", &[x.to_string()], &[]); x * 3 + {j} }})")
+        if s.consume:
+            clauses.append("M::reqv.next_call(matching!(77)).answers(&|_, x| { ev(IDX, \"reqv\", &[x.to_string()], &[]); x * 3 + 5 })")
     else:
+        if s.consume:
+            clauses.append("M::reqv.each_call(matching!(_)).answers(&|_, x| { ev(IDX, \"reqv\", &[x.to_string()], &[]); x * 3 + 5 }).n_times(1)")
         for j in range(3):
             if req_counts[j] > 0:
                 clauses.append(f"M::req{j}.each_call(matching!(_)).answers(&|_, x| {{ ev(IDX, \"req{j}\", &[x.to_string()], &[]); x * 3 + {j} }}).n_times({req_counts[j]})")
@@ -421,7 +434,7 @@ pub fn run() {{
         "caller": [py_probe(k, i) for i, k in enumerate(kinds)],
         "after": [py_probe(k, i, mutated=True) for i, k in enumerate(kinds)],
         "result": str(acc),
-        "req_args": [[f"req{j}", str(20 + n)] for n, j in enumerate(s.body_calls)],
+        "req_args": [[f"req{j}", str(20 + n)] for n, j in enumerate(s.body_calls)] + ([["reqv", "77"]] if s.consume else []),
         "by_value": by_value, "unmet": s.unmet,
         "borrowed_first": s.borrowed_first, "direct_calls": s.direct_calls,
         "sole_owner": s.sole_owner, "receiver": s.receiver, "nested": s.nested,
@@ -505,6 +518,7 @@ def default_shapes(rng: random.Random, n):
             s.sole_owner = True
         else:
             s.weak = rng.random() < 0.4
+        s.consume = s.receiver in ("owned", "rc", "arc") and rng.random() < 0.4
         if not d_supported(s):
             s.unmet = False
         if s.route == "clause_next" and s.direct_calls and not s.borrowed_first:
